@@ -367,7 +367,7 @@ def tensor_origins(prog):
     return org
 
 
-def r_alive(prog, layer_masks, fixed_layers=(), shapes=None):
+def r_alive(prog, layer_masks, fixed_layers=(), shapes=None, one_to_one_is_dw=False):
     """R-alive: forward propagation of alive-channel vectors over the *program* (my own dataflow
     model, not PLiNIO's graph passes).
 
@@ -396,7 +396,8 @@ def r_alive(prog, layer_masks, fixed_layers=(), shapes=None):
                     findings.append({'kind': 'excluded-consumer', 'op': op['name'],
                                      'src_origin': org[src], 'src_alive': alive[src]})
                     t = {'excluded-consumer'}
-            elif k == 'conv' and op.get('dw'):
+            elif k == 'conv' and (op.get('dw') or (one_to_one_is_dw and op['cin'] == op['cout'] == 1)):
+                # (PLiNIO's pattern test groups == in == out also holds for a 1 -> 1 convolution)
                 a, t = list(layer_masks[op['name']]), set(taint[src])
                 if a != alive[src]:
                     kind = 'dw:' + org[src]
